@@ -416,7 +416,7 @@ Section Seq.
     | SLoad s p sl =>
         plain_name s p /\
         (forall x l, af_ds m p = Some x -> sl = Some l -> has_selection sl = true ->
-                     Forall2 (fun n d => dimsel_wf d) (ha_dims x) l)
+                     Forall2 dimsel_wf (ha_dims x) l)
     | SShape s p => plain_name s p
     end.
 
